@@ -124,6 +124,28 @@ func VP_C03_policy_concurrent() {
 	}
 }
 
+//vp:property C03 C07
+//vp:bounds host list with one templated entry (placeholder + "-ws"); user P (4 symbolic bytes) has its own workstation checked and is allowed; then user Q (2 symbolic bytes, another name) asks for a host of 6 symbolic bytes + "-ws"
+//vp:assume list-based selection; whatever the package remembers between the two checks (the unchanged package remembers nothing)
+//vp:reach second-judged
+func VP_C03_policy_history() {
+	HostSelection = "roundrobin"
+	Hosts = []string{vpPlaceholder + "-ws"}
+	check := func(user, host string) bool {
+		id := identity.NewUser()
+		id.SetUserName(user)
+		ok, _ := CheckHost(vpCtxWith(&protocol.Tunnel{User: id}, id), host)
+		return ok
+	}
+	p, q := vpStringN("user-p", 4), vpStringN("user-q", 2)
+	hostQ := vpStringN("host-asked-by-q", 6) + "-ws"
+	first := check(p, p+"-ws")
+	vpAssert(first, "a-users-own-rendered-entry-is-allowed")
+	second := check(q, hostQ)
+	vpReach("second-judged")
+	vpAssert(second == (hostQ == q+"-ws"), "a-later-check-is-judged-by-the-list-rendered-for-its-own-user-only")
+}
+
 //vp:property C04 C07
 //vp:bounds the same binding (user "u", token host "h", token address "a1") presented twice on tunnels of their own: first from the address it was issued to, then from another address ("a2") — or the other way round; the inner policy allows; VerifyClientIP on
 //vp:assume go-cache contract for code that starts to remember things (the unchanged package has no cache)
